@@ -21,6 +21,7 @@ Domain restrictions (avoid behaviour that belongs to other properties / is not s
 from __future__ import annotations
 
 import copy
+import random
 from typing import Any, Dict, List, Optional
 
 import yaml
@@ -105,6 +106,94 @@ def _plain_base(r, idx, variant="ordinary"):
                           "command": {"executable": "echo", "arguments": "stage%d.work:output" % imp_stage},
                           "references": ["stage%d.work:output" % imp_stage]})
     return doc, docs
+
+
+# ----------------------------------------------------------------------------- explicitly empty options
+# Options whose value is a list and for which "explicitly empty" is a meaningful user choice: the component
+# (or a narrower blueprint layer / the override of the selected platform) says [] where the layer it inherits
+# from (FlowIR default, blueprint.default.global, blueprint.default.stages.N, blueprint.<selected>.global, the
+# component's own base under an override) gives a NON-empty list.  Ground truth by construction: the plan below
+# records which component gets which option emptied and where the non-empty inherited value sits.
+EMPTY_OPTIONS = {
+    "workflowAttributes.shutdownOn": [["KnownIssue"], ["KnownIssue", "SystemIssue"], ["custom-reason"]],
+    "workflowAttributes.restartHookOn": [["KnownIssue"], ["ResourceExhausted", "KnownIssue"],
+                                         ["UnknownIssue", "SystemIssue"]],
+    "executors.pre": [[{"name": "lsf-dm-in", "payload": "in.dat"}], [{"name": "lsf-dm-in", "payload": "in-%(ga)s"}]],
+    "executors.post": [[{"name": "lsf-dm-out", "payload": "out.dat"}]],
+}
+
+
+def _set_option(d: Dict[str, Any], option: str, value):
+    a, b = option.split(".")
+    d.setdefault(a, {})[b] = copy.deepcopy(value)
+
+
+def _add_explicit_empties(r, flowir, dowhile, docs, platform, n_kinds):
+    """Adds 1..n_kinds 'explicitly empty over inherited non-empty' constructions, each on its own option.
+    Returns the plan: [{kind, option, component ('*' = every component in scope), stage (absolute, or None =
+    any), inherited_from}]."""
+    main = [c for c in flowir["components"] if "$import" not in c]
+    inner = list((dowhile or {}).get("components", [])) + [c for d in docs.values() for c in d["components"]]
+    kinds = ["default", "blueprint", "blueprint", "bp-over-bp"] + (["override", "blueprint-platform"] if platform else [])
+    options = list(EMPTY_OPTIONS)
+    r.shuffle(options)
+    bp = flowir.setdefault("blueprint", {})
+    plan = []
+    for i in range(n_kinds):
+        kind = r.choice(kinds)
+        if i == 0 and platform and r.random() < 0.5:
+            kind = r.choice(["override", "blueprint-platform"])     # the layers only a selected platform has
+        if kind == "default":
+            option = "workflowAttributes.restartHookOn"       # the only list option with a non-empty FlowIR default
+            if option not in options:
+                continue
+            options.remove(option)
+        else:
+            if not options:
+                break
+            option = options.pop()
+        inherited = r.choice(EMPTY_OPTIONS[option])
+        if kind == "default":
+            for c in r.sample(main + inner, min(len(main + inner), r.randint(1, 2))):
+                _set_option(c, option, [])
+                plan.append({"kind": kind, "option": option, "component": c["name"], "stage": None,
+                             "inherited_from": "FlowIR default"})
+        elif kind in ("blueprint", "blueprint-platform"):
+            plat = platform if kind == "blueprint-platform" else "default"
+            if r.random() < 0.4 and main:
+                victim = r.choice(main)
+                st = victim.get("stage", 0)
+                _set_option(bp.setdefault(plat, {}).setdefault("stages", {}).setdefault(st, {}), option, inherited)
+                victims = [victim] + [c for c in main if c.get("stage", 0) == st and c is not victim and r.random() < 0.3]
+                where = "blueprint.%s.stages.%d" % (plat, st)
+            else:
+                _set_option(bp.setdefault(plat, {}).setdefault("global", {}), option, inherited)
+                victims = r.sample(main + inner, min(len(main + inner), r.randint(1, 3)))
+                where = "blueprint.%s.global" % plat
+            for c in victims:
+                _set_option(c, option, [])
+                plan.append({"kind": kind, "option": option, "component": c["name"], "stage": None,
+                             "inherited_from": where})
+        elif kind == "override":
+            for c in r.sample(main + inner, min(len(main + inner), r.randint(1, 2))):
+                _set_option(c, option, inherited)
+                _set_option(c.setdefault("override", {}).setdefault(platform, {}), option, [])
+                plan.append({"kind": kind, "option": option, "component": c["name"], "stage": None,
+                             "inherited_from": "the component itself (override.%s empties it)" % platform})
+        else:   # bp-over-bp: a narrower blueprint layer empties what blueprint.default.global gives
+            _set_option(bp.setdefault("default", {}).setdefault("global", {}), option, inherited)
+            if platform and r.random() < 0.5:
+                _set_option(bp.setdefault(platform, {}).setdefault("global", {}), option, [])
+                plan.append({"kind": kind, "option": option, "component": "*", "stage": None,
+                             "inherited_from": "blueprint.default.global (blueprint.%s.global empties it)" % platform})
+            else:
+                st = r.choice(main).get("stage", 0)
+                _set_option(bp["default"].setdefault("stages", {}).setdefault(st, {}), option, [])
+                plan.append({"kind": kind, "option": option, "component": "*", "stage": st,
+                             "inherited_from": "blueprint.default.global (blueprint.default.stages.%d empties it)" % st})
+    if not bp:
+        del flowir["blueprint"]
+    return plan
 
 
 def draw_case(r, idx: int, max_k: int) -> Dict[str, Any]:
@@ -260,18 +349,24 @@ def draw_case(r, idx: int, max_k: int) -> Dict[str, Any]:
     probe = platform is not None and (idx % 2 == 0 or r.random() < 0.3)
     if variant == "reptag" and uservars and r.random() < 0.5:
         uservars[0].setdefault("global", {})["known"] = "user-known"
-    return {"variant": variant, "docs": docs, "default_reload_probe": probe, "idx": idx, "flowir": flowir, "dowhile": dowhile, "uservars": uservars, "platform": platform,
+    # explicitly empty options (own random stream, drawn last: the rest of the case is what it was before)
+    r_empty = random.Random(r.getrandbits(64))
+    emptied = []
+    if r_empty.random() < 0.55:
+        emptied = _add_explicit_empties(r_empty, flowir, dowhile, docs, platform, r_empty.randint(1, 3))
+    return {"emptied": emptied, "variant": variant, "docs": docs, "default_reload_probe": probe, "idx": idx, "flowir": flowir, "dowhile": dowhile, "uservars": uservars, "platform": platform,
             "k0": k0, "cycles": cycles, "with_loop": with_loop}
 
 
 def class_key(case: Dict[str, Any]) -> str:
     f = case["flowir"]
     comps = f["components"] + ((case["dowhile"] or {}).get("components", []))
-    return "%s|plats%d|sel%s|loop%d|k0=%s|cyc%s|uv%d|ovr%d|repl%d|bp%d|envp%d" % (
+    return "%s|plats%d|sel%s|loop%d|k0=%s|cyc%s|uv%d|ovr%d|repl%d|bp%d|envp%d|empty:%s" % (
         case.get("variant", "?"), len(f["platforms"]), "D" if case["platform"] is None else "P", int(case["with_loop"]),
         "0" if case["k0"] == 0 else ("<10" if case["k0"] < 10 else ">=10"),
         "%d%s%s" % (len(case["cycles"]), "U" if any(c["update"] for c in case["cycles"]) else "n",
                     "+k" if any(c["k_more"] for c in case["cycles"]) else ""),
         len(case["uservars"]), int(any("override" in c for c in comps)),
         int(any("replicate" in c.get("workflowAttributes", {}) for c in comps)),
-        int("blueprint" in f), int(len(f.get("environments", {})) > 1))
+        int("blueprint" in f), int(len(f.get("environments", {})) > 1),
+        "+".join(sorted({e["kind"] for e in case.get("emptied") or []})) or "-")
